@@ -3,6 +3,7 @@ package props
 import (
 	"bytes"
 	"fmt"
+	"io"
 	"os"
 	"os/exec"
 	"path/filepath"
@@ -62,6 +63,7 @@ type cliRun struct {
 	RC     int
 	Killed bool
 	Out    string
+	Stdout []byte // raw standard output (stream data in stdout mode)
 	Trace  []string
 }
 
@@ -79,8 +81,8 @@ func runCLI(cli string, dir string, args []string, env map[string]string, stdin 
 		}
 	}
 	sort.Strings(envl)
-	var out bytes.Buffer
-	cmd.Stdout = &out
+	var out, raw bytes.Buffer
+	cmd.Stdout = io.MultiWriter(&out, &raw)
 	cmd.Stderr = &out
 	if stdin != nil {
 		cmd.Stdin = bytes.NewReader(stdin)
@@ -96,7 +98,7 @@ func runCLI(cli string, dir string, args []string, env map[string]string, stdin 
 		err = <-done
 		out.WriteString("\n[harness: killed after 120 s wall]")
 	}
-	r := cliRun{Args: args, Env: envl, Out: out.String()}
+	r := cliRun{Args: args, Env: envl, Out: out.String(), Stdout: raw.Bytes()}
 	if err != nil {
 		if ee, ok := err.(*exec.ExitError); ok {
 			if ws, ok := ee.Sys().(syscall.WaitStatus); ok && ws.Signaled() {
@@ -399,9 +401,20 @@ func C19(c *Case) *Result {
 			args := append([]string{"-c", "-i", "stdin", "-o", "stdout"}, copts...)
 			cmd := runCLI(cli, root, args, env, data)
 			runs = append(runs, cmd)
-			// stdout carries the stream; the banner is suppressed in stdout mode
+			// in stdout mode the standard output carries the stream and nothing else
 			if cmd.RC != 0 {
 				return res.fail("cli-compress-failed", "stdin/stdout compression exits with status %d", cmd.RC)
+			}
+			if !decodesTo(cmd.Stdout, data) {
+				return res.fail("cli-output-wrong", "the stream written to stdout (%d bytes) does not decode to the %d bytes given on stdin", len(cmd.Stdout), len(data))
+			}
+			back := runCLI(cli, root, []string{"-d", "-i", "stdin", "-o", "stdout", "-j", fmt.Sprint(1 + t.Intn(4))}, env, cmd.Stdout)
+			runs = append(runs, back)
+			if back.RC != 0 {
+				return res.fail("cli-decompress-failed", "stdin/stdout decompression exits with status %d", back.RC)
+			}
+			if !bytes.Equal(back.Stdout, data) {
+				return res.fail("cli-restore-differs", "stdin/stdout round trip returns %d bytes that differ from the %d original bytes", len(back.Stdout), len(data))
 			}
 			res.Probes["stdin.stdout"]++
 		}
